@@ -524,6 +524,8 @@ def run(ctx):
     try:
         _run_structural(ctx)
     except (AnalysisError, Exception) as exc:
+        if isinstance(exc, (NameError, ImportError, UnboundLocalError)):
+            raise       # a defect of the checker itself, never a reason to fall back
         if any(w[2] is not None or w[1] for w in (ws, wc, we)):
             raise
         r0 = ctx.rule("R0", "the structural rules cannot follow this shape of the pool server; decided by evaluated sessions")
